@@ -645,7 +645,8 @@ func (ecd Encoder) decodePublic(pt *rlwe.Plaintext, values FloatSlice, logprec f
 					values[i].Set(buffCmplx[i][0])
 				}
 				if logprec != 0 {
-					for i := range values {
+					// (the entries of a longer receiver beyond the slots are not part of the result)
+					for i := range values[:slots] {
 						values[i].Mul(values[i], scale)
 
 						// Adds/Subtracts 0.5
@@ -690,7 +691,8 @@ func (ecd Encoder) decodePublic(pt *rlwe.Plaintext, values FloatSlice, logprec f
 				}
 
 				if logprec != 0 {
-					for i := range values {
+					// (the entries of a longer receiver beyond the slots are not part of the result)
+					for i := range values[:slots] {
 
 						// Real
 						values[i][0].Mul(values[i][0], scale)
